@@ -182,14 +182,19 @@ def gen_spec(r, profile='default', exclude=()):
             if r.random() < P['p_include']:
                 others = [x for x in range(nsvc) if x != si]
                 services[si]['includes'] = r.sample(others, r.randint(1, min(2, len(others))))
+    # a characteristic UUID that occurs twice in the server is not named in a priority list (the list is resolved by UUID; a level
+    # without a matching CCCD characteristic instantiates an empty queue, which is outside of the domain - section 3.2 (2))
+    all_uuids = [tuple(c['uuid']) for s in services for c in s['chars']]
+    for s in services:
+        s['prio'] = [i for i in s['prio'] if all_uuids.count(tuple(s['chars'][i]['uuid'])) == 1]
     cand = [i for i, s in enumerate(services) if any(c['notify'] or c['indicate'] for c in s['chars'])]
     if cand and r.random() < P['p_prio']:
         server['prio'] = r.sample(cand, r.randint(1, len(cand)))
     if P['adv'] and r.random() < 0.4:
-        s16 = [s['uuid'][1] for s in services if s['uuid'][0] == 16] + [0x180F, 0x1812]
+        s16 = sorted(set([s['uuid'][1] for s in services if s['uuid'][0] == 16] + [0x180F, 0x1822]))   # no duplicates in an explicit list
         server['adv16'] = r.sample(s16, r.randint(0, min(len(s16), 4))) if r.random() < 0.8 else []
     if P['adv'] and r.random() < 0.3:
-        s128 = [s['uuid'][1] for s in services if s['uuid'][0] == 128] + [90, 91]
+        s128 = sorted(set([s['uuid'][1] for s in services if s['uuid'][0] == 128] + [90, 91]))
         server['adv128'] = r.sample(s128, r.randint(0, min(len(s128), 2)))
 
     # ---- resolve handles by the documented sequential rule; fixed handles are placed with random gaps
